@@ -212,7 +212,9 @@ class Result:
         known = [k for k in known_findings() if k["property"] == self.pid]
         rc = 0
         nviol = 0
-        for i, (fp, what, replay, nofail) in enumerate(self.violations):
+        # concrete failing inputs are reported before obligations that merely no longer check
+        ordered = sorted(self.violations, key=lambda v: bool(v[3]))
+        for i, (fp, what, replay, nofail) in enumerate(ordered):
             if any(k["fingerprint"] == fp for k in known):
                 print("KNOWN-FINDING: property=%s %s %s" % (self.pid, fp, what))
                 continue
